@@ -297,8 +297,8 @@ func (r *Raft) onSnapshotTaken(t snapTaken) {
 				if needed < nowCompact {
 					nowCompact = needed
 				}
-				if repl.status.noContact.IsZero() && repl.status.matchIndex < canCompact {
-					canCompact = repl.status.matchIndex
+				if repl.status.noContact.IsZero() && needed < canCompact {
+					canCompact = needed
 				}
 			}
 		}
@@ -309,7 +309,15 @@ func (r *Raft) onSnapshotTaken(t snapTaken) {
 		if trace {
 			println(r, "nowCompact:", nowCompact, "canCompact:", canCompact)
 		}
-		if nowCompact > r.log.PrevIndex() {
+		if r.state == Leader && len(r.ldr.repls) > 0 {
+			// replications read the log through views that point into the
+			// segments: hand them a view that starts at the new boundary and
+			// compact only after every one of them switched to it (checkLogCompact)
+			if canCompact > r.ldr.removeLTE {
+				r.ldr.removeLTE = canCompact
+				r.ldr.notifyFlr(false)
+			}
+		} else if nowCompact > r.log.PrevIndex() {
 			if verif {
 				verifPoint("snaptaken.precompact", r.snaps.dir)
 			}
@@ -318,11 +326,6 @@ func (r *Raft) onSnapshotTaken(t snapTaken) {
 				// views handed to replications start at removeLTE
 				r.ldr.removeLTE = r.log.PrevIndex()
 			}
-		}
-		if canCompact > nowCompact {
-			// notify repls with new logView
-			r.ldr.removeLTE = canCompact
-			r.ldr.notifyFlr(false)
 		}
 	}
 	t.req.reply(t.meta.index)
